@@ -356,15 +356,15 @@ def totality(ctx, facts):
             elif s.kind == "unwrap":
                 d = s.detail
                 full = str(flow.expr_of(b, b.term(s.bb)["args"][0]))
-                if "TryInto::try_into" in full and "Index::index" in full and "'Range'" in full:
+                if ("TryInto::try_into" in full or "TryFrom::try_from" in full) and "Index::index" in full and ("'Range'" in full or "'RangeTo'" in full):
                     # fixed-width slice -> array conversion: width check
                     e = flow.expr_of(b, b.term(s.bb)["args"][0])
                     rng = [c for c in malsec.walk_calls(e) if c[1].endswith("Index::index")]
                     okw = False
                     if rng:
                         ie = rng[0][2][1]
-                        if ie[0] == "agg" and ie[1] == ("std::ops::Range", "Range"):
-                            lo, hi = bounds.lin_of(ie[2][0]), bounds.lin_of(ie[2][1])
+                        if ie[0] == "agg" and ie[1] in (("std::ops::Range", "Range"), ("std::ops::RangeTo", "RangeTo")):
+                            lo, hi = (bounds.lin_of(ie[2][0]), bounds.lin_of(ie[2][1])) if ie[1][1] == "Range" else (bounds.lin_of(("const", 0)), bounds.lin_of(ie[2][0]))
                             dest = b.local_ty(b.term(s.bb)["d"][0])
                             mm = re.search(r"\[u8; (\d+)\]", dest)
                             okw = lo.sym == hi.sym and mm is not None and hi.off - lo.off == int(mm.group(1))
